@@ -180,8 +180,8 @@ def res_kind(l):
 
 G_COMMON_QUICK = [['model', 2500, 25], ['entities', 6], ['entity-boundary', 1], ['fixtures', 4000], ['mut', 1500, 400], ['enum', 2, 0], ['enum', 2, 1],
                   ['enum', 2, 2], ['enum', 2, 3]]
-G_COMMON_THOROUGH = [['model', 40000, 25], ['entities', 32], ['entity-boundary', 1], ['exotic', 100], ['model', 10000, 0], ['fixtures', 20000], ['mut', 30000, 2000],
-                     ['prefixes', 300]] + [['enum', 3, k] for k in range(6)]
+G_COMMON_THOROUGH = [['model', 120000, 25], ['entities', 64], ['entity-boundary', 1], ['exotic', 300], ['model', 30000, 0], ['fixtures', 20000], ['mut', 100000, 2000],
+                     ['prefixes', 600]] + [['enum', 4, k] for k in range(6)]
 
 def plan(quick, thorough):
     return {'quick': quick, 'thorough': thorough}
@@ -416,12 +416,12 @@ PROPS['C05'] = P_('attributes', 'arena,ev',
                   observable=mk_obs(lambda d: d.attributes()), internal=[('EV V', strip_storage)], special='pieces_attr')
 PROPS['C06'] = P_('namespaces', 'arena', plan(G_COMMON_QUICK, G_COMMON_THOROUGH),
                   observable=mk_obs(lambda d: d.namespaces()), internal=[('V', strip_storage), 'O'], special='ns_scale')
-PROPS['C07'] = P_('entity reference = replacement text', 'arena', plan([['model', 1500, 10]], [['model', 20000, 10]]),
+PROPS['C07'] = P_('entity reference = replacement text', 'arena', plan([['model', 1500, 10]], [['model', 60000, 10]]),
                   observable=obs_entities(lambda d: d.content()), special='hoist')
 PROPS['C08'] = P_('ill-formed documents are rejected', 'tok,arena', plan(G_COMMON_QUICK, G_COMMON_THOROUGH),
                   observable=lambda di, dm, il, ml: (res_kind(res_line(il)) == 'ok', res_kind(res_line(ml)) == 'ok'),
                   internal=[('RES', res_variant), ('TKRES', res_variant)], tie_on_rejects=True, special='illform')
-PROPS['C09'] = P_('entity expansion is bounded', 'arena,ev', plan([['model', 1500, 30]], [['model', 20000, 30]]),
+PROPS['C09'] = P_('entity expansion is bounded', 'arena,ev', plan([['model', 1500, 30]], [['model', 60000, 30]]),
                   observable=obs_flag('EntityReferenceLoop'), internal=['EV L'], impl_checks=[chk_size_bound, chk_no_panic], special='entities',
                   crash_is_violation=True)
 PROPS['C10'] = P_('read operations are total', 'arena,api,lk,it,tp', plan(G_COMMON_QUICK[:3], G_COMMON_THOROUGH[:4]),
@@ -445,7 +445,7 @@ PROPS['C18'] = P_('borrowed strings', 'arena', plan(G_COMMON_QUICK[:3], G_COMMON
                   observable=mk_obs(lambda d: d.storages()), impl_checks=[chk_borrowed], special='storage')
 PROPS['C19'] = P_('determinism and features', 'arena', plan([['model', 800, 20], ['fixtures', 4000]], [['model', 10000, 20], ['fixtures', 20000], ['mut', 5000, 400]]),
                   observable=None, internal=[], special='features')
-PROPS['C20'] = P_('immutable, thread-shareable, no unsafe', 'arena,api', plan([['model', 200, 0]], [['model', 2000, 0]]),
+PROPS['C20'] = P_('immutable, thread-shareable, no unsafe', 'arena,api', plan([['model', 200, 0]], [['model', 6000, 0]]),
                   observable=None, special='threads')
 
 # ------------------------------------------------------------------------------------------------
